@@ -4,6 +4,8 @@ run():
   1. `lake build` Props/C16 + axiom audit (C16_safe and the witness theorems about the model);
   2. probe the assumption about pickle used by the model (every strict prefix of a record fails
      to load) on the real records of this run;
+  2b. the premise of C16_safe about the key comparison (World.KeyOk) with the real `==` on every
+     ordered pair of corpus expressions (violation → broken, the pair goes to the search);
   3. INFER the variant the real code implements (distinguishing probes through the hooks);
      anything but the fixed variant means `C16_safe` does not apply → broken, witnesses replayed;
   4. T2 correspondence: scripted directory histories (pre-populated files, interleaved calls of
@@ -358,7 +360,9 @@ class C16Property:
         deep = bool(chk.broken) or tier == "thorough"
         srng = common.rng_for("C16", seed, "search")
         try:
-            sel = fams if deep else {k: fams[k] for k in ("width_phsp", "breakup_assumptions", "pick_larger", "single_kallen",
+            extra = set(X.callable_families()) - {"width_bound_methods", "rule_callables"}
+            wide = fams if tier == "thorough" else {k: v for k, v in fams.items() if k not in extra}  # broken in quick: bounded
+            sel = wide if deep else {k: fams[k] for k in ("width_phsp", "breakup_assumptions", "pick_larger", "single_kallen",
                                                           "odd_names_assumptions", "odd_names", "width_named",
                                                           "width_bound_methods", "rule_callables")}
             for f in S.sequential(chk, srng, None if deep else 12, sel, modes=("sha", "seed0", "seed424242") if deep else ("sha", "seed0")):
@@ -754,7 +758,12 @@ MANIFEST = {
         "Proof about a model + checked tie. Model (lean/Ampverif/Model/C16Cache.lean): perform_cached_doit as a small-step process "
         "(exists?, open, load+compare, doit+open temp, write token by token, close, os.replace, return) over a directory with names, inodes "
         "and contents; any number of processes interleaved at step granularity; crash = drop a process at any step. "
-        "Proved for ALL worlds (any doit, any file-name function: sha256(str) with non-injective str and seeded hash are instances), all "
+        "The key comparison `cached_key == expr` is a PARAMETER of the model (World.keyEq: SymPy == as decided by the @unevaluated decorator's "
+        "_hashable_content; neither reflexive nor injective in general), and C16_safe carries the premise World.KeyOk (keyEq a b -> doit a = doit b) "
+        "explicitly; C16_keyOk_identity, C16_safe_noninjective (a non-injective equality that satisfies it) and the decide-witness "
+        "C16_witness_key_equality (a non-injective equality that violates it: every switch fixed, the second expression is served the first one's "
+        "record, in the same history or from a directory left behind). "
+        "Proved for ALL worlds (any doit, any key equality with KeyOk, any file-name function: sha256(str) with non-injective str and seeded hash are instances), all "
         "admissible initial directories (truncated records, garbage, old-format files, records of other expressions, stale temp files, under "
         "any names) and ALL histories of unbounded length and any number of processes (induction over the operation list): C16_safe (every "
         "call that returns, returns doit(expr); none raises), C16_never_raises, C16_directory_invariant (every file that loads as (e,x) has "
@@ -763,7 +772,16 @@ MANIFEST = {
         "intolerant load (truncated, old format), non-atomic write (two writers leave (expr A, doit B); legacy reader/writer race; crash), "
         "temp name shared between callers. Tie: on every run the variant is inferred from the real code by probes, then scripted histories "
         "(pre-populated directories, 1-3 interleaved callers, crashes after any chunk, PYTHONHASHSEED unset/set per call) run on the REAL "
-        "function under a scheduler and on the model, replies compared line by line; a caller dying after exactly k bytes for a spread of k "
+        "function under a scheduler and on the model, replies compared line by line, the model's keyEq being the table of the REAL "
+        "`unpickled stored key == request` of that history's expressions; the premise KeyOk is an obligation evaluated with the real == on every "
+        "ordered pair of corpus expressions (a == b or unpickled(a) == b must imply structurally identical doit(); the verdict's notion of identity "
+        "is structural and does not use ==/hash of @unevaluated objects) — a violation is a broken correspondence and sends the pair to the search. "
+        "Corpus: expressions printing identically that differ in symbol assumptions, in a class-valued attribute, or in a FUNCTION-valued "
+        "attribute (bound methods of different instances, classmethods bound to different subclasses, functools.partial, callable instances, "
+        "module functions; lambdas/closures of one scope in the obligation only — pickle cannot store them; classes of one qualified name are "
+        "identified by the unchanged library: known finding C10, recorded under observations, outside this verdict); every ordered pair A,B of "
+        "the callable families runs A,B,A,B through one directory in one process and A | B,A in a first and a LATER process under "
+        "PYTHONHASHSEED unset/0/424242; a caller dying after exactly k bytes for a spread of k "
         "(quick) / every k (thorough). Independent oracles on the real function judge the RETURNED object (structural identity incl. symbol "
         "assumptions and non-SymPy attributes, srepr/hash/free symbols, unfolding again, value at a rational point, subs, pickle round trip) "
         "and that the argument is untouched: sequences of calls in ONE process (repeats after a confirmed disk hit, string-equal expressions "
